@@ -11,7 +11,7 @@ RULE = (
     "temperature/pressure types; min only / max only / both / none; inclusive or exclusive; default unit any unit of the "
     "type or omitted; default value given or derived; also from_category children with partial overrides) and then "
     "values (exact boundaries, boundaries +-1 ulp, NaN, +-inf, random) written in any unit of the type, for Scalar, "
-    "FractionScalar, Array over list/tuple/ndarray (lengths 0..8, NaN sprinkled), tuple-of-tuples and list-of-tuples. "
+    "FractionScalar, Array over list/tuple/ndarray float64 and float32 (lengths 0..8, NaN sprinkled), tuple-of-tuples and list-of-tuples. "
     "Oracle (independent limit predicate on the database's own float conversion to the default unit): IsValid() <=> "
     "every non-NaN element (flat Array) / the value (Scalar, NaN invalid) satisfies the limits; CheckValidity raises "
     "QuantityValidationError whose (operator, limit) is a limit that a reported element really violates; "
@@ -224,6 +224,27 @@ class Checker:
                     c3 = a.CreateCopy(values=gen.as_container(k, [other["default_value"]]), unit=other["default_unit"], category=other["name"])
                     if not c3.IsValid():
                         ctx.fail("copy_with_new_values_keeps_stale_verdict", dict(case, kind=k), "copy holding the other category's default value is reported invalid")
+        # a float32 ndarray holds other numbers (the float32 roundings): the verdict is the one of exactly those numbers,
+        # decided in double precision like for every other container
+        import numpy
+
+        p32 = numpy.array(list(xs), dtype=numpy.float32)
+        x32 = [float(t) for t in p32]
+        if all(math.isfinite(t) or math.isnan(t) for t in x32) or True:
+            am32 = [self.amount(cfg, u, t) for t in x32]
+            bad32 = [(v, why) for t, v, (ok, why) in zip(x32, am32, [satisfies(v, cfg) for v in am32]) if not ok and not math.isnan(t)]
+            want32 = not bad32
+            a32 = Array(p32, u, name)
+            ctx.ev()
+            got32 = a32.IsValid()
+            if got32 != want32:
+                ctx.fail("verdict_wrong:Array:float32:%s" % ("accepts_invalid" if got32 else "rejects_valid"), dict(case, kind="ndarray_float32"), "Array(float32 %r, %r, %r).IsValid()=%r; amounts %r in %s against %r say %r" % (x32, u, name, got32, am32, cfg["default_unit"], _lim(cfg), want32))
+            try:
+                a32.CheckValidity()
+            except QuantityValidationError as e:
+                if bad32 and not any(e.operator == why[0] and e.limit_value == why[1] and _same(float(e.value), v) for v, why in bad32):
+                    ctx.fail("reported_limit_wrong:Array:float32", dict(case, kind="ndarray_float32"), "Array(float32 %r): reported %r %s %r; really violated: %r" % (x32, e.value, e.operator, e.limit_value, bad32[:3]))
+            ctx.cls("array_float32_checked")
         has_nan = any(math.isnan(x) for x in xs)
         if (has_nan and bad) or any(self.near_boundary(cfg, v) for v in amounts):
             ctx.nontrivial(("array", _lim(cfg), u, len(xs), want), dict(case, amounts=amounts, verdict=want) if len(ctx.samples) < 8 else None)
